@@ -290,6 +290,8 @@ pub trait Check: Sync {
     /// Seconds without progress (no new scenario started) after which a worker counts as hung.
     /// Wall-clock, hence deliberately an order of magnitude above the slowest scenario of any
     /// check on an idle machine (about 60 s): a loaded machine must not turn into an alarm.
+    /// A quarter of it, in CPU seconds of the worker and its children, is the second criterion
+    /// (recognises a busy loop sooner, and is insensitive to load).
     fn watchdog_s(&self, tier: Tier) -> u64 {
         match tier {
             Tier::Quick => 600,
